@@ -54,7 +54,7 @@ def observe(case):
     p = case["params"]
     files = htaio.write_case(case, gz=p["gz"])
     try:
-        ta = htaio.load(files)
+        ta = htaio.load(files, ctor=case.get("ctor"))
         C.disturb(ta, case.get("pre"))
         ranks = list(p["ranks"])
         rows = {r: htaio.rows_of(ta.t, r) for r in ranks}
